@@ -29,7 +29,7 @@ var (
 // payload patterns of the universe, most to least specific for A.
 var payloadPats = []xml.Name{nA, nC, {Local: "a"}, {Space: "n1"}, {}}
 
-var iqTypes = []string{"get", "set", "result"}
+var iqTypes = []string{"get", "set", "result", ""} // the last one: no type attribute
 var msgTypes = []string{"chat", "normal", "headline"}
 var presTypes = []string{"", "unavailable", "probe"}
 
@@ -195,7 +195,7 @@ func stanzaBody(kind string, maxChildren int) nd.Body {
 				}
 			}
 		}
-		typ := types[c.Choose(3, "type")]
+		typ := types[c.Choose(len(types), "type")]
 		n := c.Choose(maxChildren+1, "nchildren")
 		var children []int
 		for i := 0; i < n; i++ {
@@ -281,6 +281,9 @@ func stanzaBody(kind string, maxChildren int) nd.Body {
 				}
 			}
 			if textFirst || (!hasPayload && typ != "result") {
+				if typ == "" && len(calls) > 0 {
+					return fail("wrong-handler", "an IQ without a type was given to %v", labels(calls))
+				}
 				// malformed for this router: an error is acceptable, a handler call is not required
 				if len(calls) > 0 && textFirst {
 					return fail("handler-called-for-text-payload", "calls %v", calls)
@@ -319,7 +322,9 @@ func stanzaBody(kind string, maxChildren int) nd.Body {
 				if r.Name.Local != "iq" || ty != "error" || id != "i1" || to != "juliet@example.com/r" || !strings.Contains(r.String(), "service-unavailable") {
 					return fail("default-reply-wrong", "unhandled %s IQ: wrote %s", typ, out)
 				}
-			} else if len(enc.toks) != 0 {
+			} else if len(enc.toks) != 0 && typ != "" {
+				// (an IQ without a type is invalid: only "no handler registered
+				// for another type is invoked" is judged for it)
 				return fail("default-reply-for-result", "wrote %s", out)
 			}
 			return res
@@ -377,8 +382,8 @@ func labels(cs []call) []string {
 }
 
 // top-level Handle patterns
-var topPats = []xml.Name{nA, nC, {Local: "a"}, {Space: "n1"}, {Space: "n2"}, {Local: "b"}}
-var topIn = []xml.Name{nA, nB, nC, nD, {Space: "n2", Local: "b"}, {Space: "n3", Local: "a"}, {Space: "n1", Local: "message"}}
+var topPats = []xml.Name{nA, nC, {Local: "a"}, {Space: "n1"}, {Space: "n2"}, {Local: "b"}, {Space: ns}}
+var topIn = []xml.Name{nA, nB, nC, nD, {Space: "n2", Local: "b"}, {Space: "n3", Local: "a"}, {Space: "n1", Local: "message"}, {Space: ns, Local: "message"}, {Space: ns, Local: "presence"}, {Space: ns, Local: "a"}}
 
 func topBody(c *nd.Ctx) nd.Result {
 	reg := map[xml.Name]bool{}
